@@ -11,7 +11,7 @@ GPut == nextId <= MaxMsgs /\ \E k \in {"ref", "slc", "uv"} : (Family \in {"ev", 
                                                         /\ Put(k) /\ H("Put", [kind |-> k])
 \* rejected requests are generated for one canonical validator only (they all leave the state unchanged)
 SignOk(v, id, mode) == id \in DOMAIN msgs /\ v \notin jailed /\ mode = "good" /\ msgs[id].kind \in Signable /\ ~\E s \in msgs[id].sigs : s.val = v
-GSign == \E v \in Vals, id \in SlcIds, mode \in {"good", "stale", "badkey", "otherchain", "garbage"} :
+GSign == \E v \in Vals, id \in SlcIds, mode \in {"good", "stale", "badkey", "otherchain", "oldkey", "garbage"} :
            /\ (mode # "good" => id \in DOMAIN msgs)
            /\ (SignOk(v, id, mode) \/ v = 2)
            /\ Sign(v, id, mode) /\ H("Sign", [v |-> v, id |-> id, mode |-> mode])
